@@ -345,6 +345,12 @@ func (r *UnifiedMemoryModelRegistry) RemoveEndpoint(ctx context.Context, endpoin
 	r.unificationMutex.Lock()
 	defer r.unificationMutex.Unlock()
 
+	// The unifier keeps its own per-endpoint catalogue; an empty listing clears it, otherwise
+	// alias resolution would still find the removed endpoint's models
+	if _, err := r.unifier.UnifyModels(ctx, nil, &domain.Endpoint{URLString: endpointURL, Name: endpointURL}); err != nil {
+		r.logger.Warn("Failed to clear unifier state for removed endpoint", "endpoint", endpointURL, "error", err)
+	}
+
 	// Remove endpoint from all unified models
 	r.dropEndpointFromUnified(endpointURL, nil)
 
